@@ -283,6 +283,10 @@ def run(ctx):
              dict(entry="filtered", cs="astronomical", depth=2, fmt="npy", kind="scalar", mode="update", regions=[(0, B), (B, 7.0)], accept=sparse, par="sim3"),
              dict(entry="sample_layer", cs="planetary", depth=2, fmt="npy", kind="scalar", mode="clobber", regions=None, accept=None, par="real3"),
              dict(entry="sample_layer", cs="planetary", depth=0, fmt="npy", kind="scalar", mode="clobber", regions=None, accept=None, par="sim2"),
+             # format= override whose vertical parity differs from the pyramid's default format
+             dict(entry="sample_layer", cs="astronomical", depth=1, fmt="fits", piofmt="png", kind="scalar", mode="clobber", regions=None, accept=None, par=1),
+             dict(entry="sample_layer", cs="planetary", depth=1, fmt="npy", piofmt="fits", kind="scalar", mode="clobber", regions=None, accept=None, par=1),
+             dict(entry="sample_layer", cs="astronomical", depth=1, fmt="fits", piofmt="npy", kind="scalar", mode="clobber", regions=None, accept=None, par="sim2"),
              dict(entry="sample_layer", cs="astronomical", depth=0, fmt="fits", kind="scalar", mode="clobber", regions=None, accept=None, par="real2")]
     if not q:
         runs += [dict(entry="sample_layer", cs="astronomical", depth=3, fmt="fits", kind="scalar", mode="clobber", regions=None, accept=None, par="real4"),
@@ -294,16 +298,19 @@ def run(ctx):
         cs = csmap[rn["cs"]]
         psi = toastlat.psi_for(tl, rn["cs"])
         d = ctx.mkdtemp("c06")
-        label = "%(entry)s depth %(depth)d %(cs)s %(fmt)s %(kind)s %(mode)s par=%(par)s" % rn
+        label = "%(entry)s depth %(depth)d %(cs)s %(fmt)s %(kind)s %(mode)s par=%(par)s" % rn + (" (pyramid default format %s)" % rn["piofmt"] if "piofmt" in rn else "")
         key = "C06:%s" % rn["entry"]
         passes = rn["regions"] if rn["regions"] is not None else [None]
         acc = rn["accept"]
 
         def body(rn=rn, d=d, cs=cs, passes=passes, acc=acc, parallel=1):
-            pio = pyramid.PyramidIO(d, default_format=rn["fmt"])
+            pio = pyramid.PyramidIO(d, default_format=rn.get("piofmt", rn["fmt"]))
             for reg in passes:
                 sampler = make_sampler(rn["kind"], reg)
-                if rn["entry"] == "sample_layer":
+                if rn["entry"] == "sample_layer" and "piofmt" in rn:
+                    # the documented format= override: tiles in rn["fmt"] although the pyramid's default format differs
+                    toast.sample_layer(pio, sampler, rn["depth"], coordsys=cs, format=rn["fmt"], parallel=parallel)
+                elif rn["entry"] == "sample_layer":
                     toast.sample_layer(pio, sampler, rn["depth"], coordsys=cs, parallel=parallel)
                 elif rn["entry"] == "toast_base":
                     builder.Builder(pio).toast_base(sampler, rn["depth"], coordsys=cs, parallel=parallel)
